@@ -673,6 +673,14 @@ class Interp:
         cands = self.F.by_path.get(d, []) if hasattr(self.F, "by_path") else []
         if len(cands) == 1 and not cands[0].get("impl_self"):
             return self.call_crate_fn(cands[0], list(args), n)
+        if len(args) == 1:
+            # a unary method passed by path (`.filter(ComplexField::is_finite)`, `.map(N::abs)`)
+            if last in MATH_METHODS:
+                return MATH_METHODS[last](self.num(args[0], n))
+            if last in TRANSPARENT_METHODS:
+                return args[0]
+            if last in ("is_finite", "is_nan", "is_infinite", "is_sign_positive", "is_sign_negative"):
+                return Function(last)(self.num(args[0], n))
         raise Unsupported(n, "function value %s" % d)
 
     def call_crate_fn(self, body, args, n):
